@@ -385,6 +385,8 @@ func runC02(c *Ctx) {
 	r.Rule("R2", "every invocation of handler code is under a deferred call of Config.Recover, one handler per frame; the default hook calls recover() directly and invokes no method of the recovered value")
 	r.Rule("R3", "in the receive goroutine the only exits of the read loop are on the error result of the framing read; a line the parser rejects returns to the loop head; a line it accepts is handed to the inbound queue by a blocking send before the next read")
 	r.Rule("R4", "no lock is acquired while already held in any function of the unprotected region or in the tracker (a self-deadlock stops line processing without a panic)")
+	r.Rule("R6", "a panic that the recovery hook catches leaves no library lock behind (shared with C16.R5): under every lock of client/state that is released by an explicit Unlock, every potentially panicking instruction, callees included, is proved safe - otherwise one malformed line wedges every later line that needs the lock")
+	r.Rule("R7", "the message splitter terminates on every text (the CTCP handlers echo server-chosen bytes through it): in every loop of the splitting code that continues with a suffix s[i:] of its own text, i >= 1 is proved")
 	r.Rule("R5", "the connection goroutines never start with a nil reader/writer or socket: every member spawn is dominated by a store of bufio.NewReadWriter(...) to the buffered-I/O field, and every path of the connect routine from the per-connection reset to the spawning call stores a dialled socket")
 
 	region := c.unprotectedRegion()
@@ -483,6 +485,9 @@ func runC02(c *Ctx) {
 
 	// R5
 	c.connPointersRule("R5")
+	// R6, R7
+	c.panicSafeLocksRule("R6")
+	c.consumingLoopsRule("R7", p)
 
 	// R4
 	var funcs []*ssa.Function
@@ -1021,4 +1026,44 @@ func (c *Ctx) domInterproc(fn *ssa.Function, at ssa.Instruction, pred func(ssa.I
 		}
 	}
 	return true
+}
+
+// consumingLoopsRule: in the splitting code every loop-carried text that is
+// replaced by a suffix of itself advances by at least one byte.
+func (c *Ctx) consumingLoopsRule(rule string, p *Prover) {
+	r := c.R
+	n := 0
+	for _, name := range []string{"splitMessage", "indexFragment", "splitArgs"} {
+		fn := c.Func(c.Client, name)
+		if fn == nil {
+			continue
+		}
+		roots := c.Closure([]*ssa.Function{fn}, func(from *ssa.Function, e Edge) bool {
+			return e.Kind == EdgeCall && !e.Site.Common().IsInvoke() && e.Callee.Package() == c.Client
+		})
+		for _, f := range roots.Order {
+			if !c.InModuleFn(f) {
+				continue
+			}
+			funcInstrs(f, func(in ssa.Instruction) {
+				ph, ok := in.(*ssa.Phi)
+				if !ok || !c.IsLoopHeader(ph.Block()) || !hasLen(ph.Type()) {
+					return
+				}
+				for _, e := range ph.Edges {
+					sl, isSl := e.(*ssa.Slice)
+					if !isSl || sl.X != ssa.Value(ph) || sl.Low == nil || sl.High != nil {
+						continue
+					}
+					n++
+					low := sl.Low
+					ok4, why4 := p.ProveAt(sl, func(fc *factCtx) []Lin {
+						return []Lin{leExpr(constLin(1), fc.iexpr(low))}
+					})
+					r.Add(rule, fmt.Sprintf("advance:%s:%s", c.FuncKey(f), ph.Comment), c.InstrPos(sl), c.FuncKey(f), "the loop continues with a strictly shorter text (cut index >= 1)", ok4, why4)
+				}
+			})
+		}
+	}
+	r.Floor(rule, "self-consuming loops in the splitting code", n, 1)
 }
